@@ -859,23 +859,27 @@ func (w *World) callback(i int64) func(api.ResponseMessage) {
 	return w.cb7
 }
 
-// settle waits until the callback goroutines spawned by the last operation have run:
-// the invocation counter must be stable over several scheduler rounds.
-func (w *World) settle() {
+// settle waits until the callback goroutines spawned by the last operation (`go cb(msg)` inside
+// the stack) have finished: the number of goroutines is back at what it was before the operation.
+// No timing is involved (a fixed quiet period can be outrun on a loaded machine: an invocation
+// then shows up one operation late); a goroutine that does not finish within 30 s is reported as
+// an observation outside the vocabulary.
+func (w *World) settle(base int) {
 	if w.nCbs == 0 {
 		return
 	}
-	last := w.nInv.Load()
-	stable := 0
-	for i := 0; i < 400 && stable < 4; i++ {
-		for j := 0; j < 20; j++ {
+	deadline := time.Now().Add(30 * time.Second)
+	for i := 0; runtime.NumGoroutine() > base; i++ {
+		if i < 100 {
 			runtime.Gosched()
+			continue
 		}
-		time.Sleep(60 * time.Microsecond)
-		if n := w.nInv.Load(); n == last {
-			stable++
-		} else {
-			last, stable = n, 0
+		time.Sleep(20 * time.Microsecond)
+		if i%1000 == 0 && time.Now().After(deadline) {
+			w.mu.Lock()
+			w.log = append(w.log, logItem{ski: -1, ev: hx.Zs{97, 1}})
+			w.mu.Unlock()
+			return
 		}
 	}
 }
@@ -959,6 +963,7 @@ func (w *World) localFeature(e []int64, f int64) api.FeatureLocalInterface {
 
 // Exec runs one encoded operation and returns the observations.
 func (w *World) Exec(op hx.Zs) []hx.Zs {
+	base := runtime.NumGoroutine()
 	r := &rd{z: op}
 	code := r.n()
 	var ret []hx.Zs
@@ -1032,7 +1037,7 @@ func (w *World) Exec(op hx.Zs) []hx.Zs {
 			panic(err)
 		}
 		w.InjectRaw(p, b)
-		w.settle()
+		w.settle(base)
 	case 9: // AddRespCb
 		f, ctr, cb := r.n(), r.n(), r.n()
 		e := r.eaddr()
@@ -1116,7 +1121,7 @@ func (w *World) Exec(op hx.Zs) []hx.Zs {
 			ret = append(ret, hx.Zs{4, regOK})
 		}
 		w.InjectRaw(pf, b)
-		w.settle()
+		w.settle(base)
 		stats["overlapping-operations"]++
 		if len(live) >= 2 {
 			stats["overlapping-operations:with-2+-live-arrivals"]++
